@@ -326,6 +326,17 @@ def _unfolded(f):
     return Func(f.qname, node, f.module, f.cls, f.parent)
 
 
+def _contradicts(facts, known):
+    """can the facts (a conjunction) not hold together with the known ones?  p < c (p <= c) excludes c < p and c <= p
+    unless both are inclusive; an outcome equal to X excludes an outcome different from X"""
+    opposite = {'lower': 'upper', 'upper': 'lower', 'status': 'nstatus', 'nstatus': 'status'}
+    for kind, what, strict in facts:
+        for k2, w2, s2 in known:
+            if k2 == opposite[kind] and w2 == what and (strict or s2):
+                return True
+    return False
+
+
 class LoadFacts:
     """window parameters, entry variable, completion-time variables, status comparison and sort of chronicle._load"""
 
@@ -416,15 +427,58 @@ class LoadFacts:
                     if sc.status_sub(x):
                         if isinstance(op, ast.Eq):
                             T.append(('status', norm(sc.back(y)), True))
-                        elif single:
-                            F.append(('status', norm(sc.back(y)), True))
+                            if single:
+                                F.append(('nstatus', norm(sc.back(y)), True))
+                        else:
+                            T.append(('nstatus', norm(sc.back(y)), True))
+                            if single:
+                                F.append(('status', norm(sc.back(y)), True))
         return T, F
 
-    def _pred_summary(self, h, sub):
+    def under(self, e, known, sc=None):
+        """(may be true, may be false): the outcomes of a condition that are possible for an entry of which the facts
+        `known` hold (same fact language as atoms).  Boolean structure, chained comparisons and predicate helpers of the
+        same module are followed; whatever is not understood may be both."""
+        sc = sc or self.base
+        if isinstance(e, ast.UnaryOp) and isinstance(e.op, ast.Not):
+            t, f_ = self.under(e.operand, known, sc)
+            return f_, t
+        if isinstance(e, ast.BoolOp):
+            parts = [self.under(v, known, sc) for v in e.values]
+            if isinstance(e.op, ast.And):
+                return all(t for t, _f in parts), any(f_ for _t, f_ in parts)
+            return any(t for t, _f in parts), all(f_ for _t, f_ in parts)
+        if isinstance(e, ast.Constant):
+            return bool(e.value), not e.value
+        if isinstance(e, ast.Compare) and len(e.ops) > 1:
+            # a < b < c  ==  a < b and b < c
+            operands = [e.left] + list(e.comparators)
+            parts = [
+                self.under(ast.copy_location(ast.Compare(left=operands[i], ops=[op], comparators=[operands[i + 1]]), e), known, sc)
+                for i, op in enumerate(e.ops)
+            ]
+            return all(t for t, _f in parts), any(f_ for _t, f_ in parts)
+        if isinstance(e, ast.Call):
+            h = _helper(self.prog, sc.func, e)
+            sub = sc.enter(e, h) if h is not None else None
+            if sub is not None:
+                ret = _returned_expr(h)
+                if ret is not None:
+                    return self.under(ret, known, sub)
+                return self._pred_summary(h, sub, known)
+            return True, True
+        if isinstance(e, ast.Compare):
+            T, F = self.atoms(e, sc)
+            return not _contradicts(T, known), not _contradicts(F, known)
+        return True, True
+
+    def _pred_summary(self, h, sub, known=None):
         """predicate helper with a body of several statements (guards that return early, boolean locals): the facts that
-        hold on EVERY path returning a true value / on every path returning a false value (falling off the end is None)"""
+        hold on EVERY path returning a true value / on every path returning a false value (falling off the end is None).
+        With `known` (facts about the entry, see under): (a path returning a true value exists, one returning a false
+        value exists) when the branches those facts exclude are not taken"""
         lf = self
-        KINDS = ('lower', 'upper', 'status')
+        KINDS = ('lower', 'upper', 'status', 'nstatus')
 
         class P(Flow):
             def __init__(self):
@@ -438,7 +492,8 @@ class LoadFacts:
                         return ((st,), ()) if v == 'T' else ((), (st,))
                     return (st,), (st,)
                 T, F = lf.atoms(e, sub)
-                return (st | frozenset(T),), (st | frozenset(F),)
+                mt, mf = lf.under(e, known, sub) if known is not None else (True, True)
+                return ((st | frozenset(T),) if mt else ()), ((st | frozenset(F),) if mf else ())
 
             def on_stmt(self, s, st):
                 if isinstance(s, (ast.Assign, ast.AnnAssign, ast.AugAssign)):
@@ -469,6 +524,8 @@ class LoadFacts:
         fl = P()
         o = fl.run(desugar(h.node), frozenset())
         fl.F.extend(o.normal)
+        if known is not None:
+            return bool(fl.T), bool(fl.F)
 
         def meet(paths):
             sets = [{x for x in st if x[0] in KINDS} for st in paths]
@@ -1837,6 +1894,26 @@ class _Filter(Flow):
         return (st,)
 
 
+class _Kept(Flow):
+    """_load as walked by an entry the query must return (facts `wanted`: completion time strictly inside the window and
+    the requested outcome): branches such an entry cannot take are not followed; the `continue` statements still met are
+    the ones that drop it"""
+
+    def __init__(self, lf, wanted):
+        super().__init__()
+        self.lf, self.wanted = lf, wanted
+        self.reached = []
+
+    def on_test(self, e, st):
+        mt, mf = self.lf.under(e, self.wanted)
+        return ((st,) if mt else ()), ((st,) if mf else ())
+
+    def _s_Continue(self, s, states):
+        if states and not any(x is s for x in self.reached):
+            self.reached.append(s)
+        return Flow._s_Continue(self, s, states)
+
+
 def _rule4(ctx, rep, lf, ffl, fnode):
     prog = ctx.prog
     ff = prog.func(Q_FIND)
@@ -1869,9 +1946,13 @@ def _rule4(ctx, rep, lf, ffl, fnode):
                 + ', '.join(missing + (['the outcome test'] if nostatus else []))
                 + ' being established (strictly) on the path: entries outside the open window, or of the other outcome, are returned',
             )
-        # every file and every entry is looked at: no early exit from the loops
+        # every file and every entry is looked at: no early exit from the loops.  `break` / `return` end the loop for the
+        # entries that follow; a `continue` only concerns the current one and is accepted when it is the filter itself
         r.instance()
         par_l = _parents(lf.f.node)
+        wanted = {('lower', lo_p, True), ('upper', up_p, True)} | {f for f in set.intersection(*[set(st) for _c, st in flt.appends]) if f[0] == 'status'}
+        kept = _Kept(lf, frozenset(f for f in wanted if f[1] is not None))
+        kept.run(lf.f.node, frozenset())
 
         def name_filter_guard(n):
             """`continue` directly under an `if` that only tests <name>.endswith(<literal>) (either polarity): skips a file
@@ -1884,14 +1965,71 @@ def _rule4(ctx, rep, lf, ffl, fnode):
                 t = t.operand
             return isinstance(t, ast.Call) and isinstance(t.func, ast.Attribute) and t.func.attr == 'endswith' and isinstance(t.func.value, ast.Name)
 
-        early = [
-            n
-            for lp in lf.f.own_nodes()
-            if isinstance(lp, (ast.For, ast.While))
-            for n in ast.walk(lp)
-            if isinstance(n, (ast.Break, ast.Continue, ast.Return)) and not name_filter_guard(n)
-        ]
-        r.check(not early, f'{lf.f.qname}:no-early-exit', where(lf.f, early[0] if early else None), 'loops over files and entries have no break/continue/return', 'a loop of _load is left early: files or entries of the day are skipped (not understood)', nontrivial=False)
+        def plain(e):
+            """an expression whose only calls parse the completion time or are helpers of the module (as in the filter)"""
+            return not any(
+                isinstance(x, (ast.NamedExpr, ast.Await, ast.Yield, ast.YieldFrom))
+                or (isinstance(x, ast.Call) and not lf.base._parsed(x) and _helper(prog, lf.f, x) is None)
+                for x in ast.walk(e)
+            )
+
+        def collecting(s):
+            """a statement that only serves the collection of the current entry: the append to a result list, the tests
+            on the way to it, locals set for those tests"""
+            if isinstance(s, (ast.Pass, ast.Continue)):
+                return True
+            if isinstance(s, ast.If):
+                return plain(s.test) and all(collecting(x) for x in s.body + s.orelse)
+            if isinstance(s, (ast.Assign, ast.AnnAssign)):
+                ts = s.targets if isinstance(s, ast.Assign) else [s.target]
+                return all(isinstance(t, ast.Name) for t in ts) and (s.value is None or plain(s.value))
+            if isinstance(s, ast.Expr) and isinstance(s.value, ast.Call):
+                return any(s.value is c for c, _st in flt.appends) and all(plain(a) for a in s.value.args) and not s.value.keywords
+            return False
+
+        def filter_guard(n):
+            """reason why a `continue` is more than the entry filter written as a guard clause, None when it is just that:
+            (1) an entry the query must return (completion time strictly inside the window, requested outcome) never takes
+            it - decided with the atoms of the filter, branch by branch; (2) all it skips is the collection of the entry"""
+            if not isinstance(n, ast.Continue):
+                return 'not a continue'
+            skipped, c = [], n
+            while True:
+                p = par_l.get(c)
+                field = next((f for f in ('body', 'orelse') if any(x is c for x in getattr(p, f, None) or [])), None)
+                if p is None or field is None or not isinstance(p, (ast.If, ast.With, ast.For)):
+                    return 'its place in the loop is not understood'
+                seq = getattr(p, field)
+                skipped.extend(seq[[x is c for x in seq].index(True) + 1 :])
+                if isinstance(p, ast.For):
+                    if field != 'body' or not _is_name(p.target, lf.entry_var):
+                        return 'it does not belong to the loop over the entries'
+                    break
+                c = p
+            if any(x is n for x in kept.reached):
+                return f'an entry with {lo_p} < completed < {up_p} and the requested outcome can reach it'
+            other = [s for s in skipped if not collecting(s)]
+            if other:
+                return f'it skips `{norm(other[0])[:60]}`, which is not part of collecting the entry'
+            return None
+
+        early = []
+        for lp in lf.f.own_nodes():
+            if isinstance(lp, (ast.For, ast.While)):
+                for n in ast.walk(lp):
+                    if isinstance(n, (ast.Break, ast.Continue, ast.Return)) and not name_filter_guard(n) and not any(n is x for x, _w in early):
+                        why = filter_guard(n)
+                        if why is not None:
+                            early.append((n, why))
+        r.check(
+            not early,
+            f'{lf.f.qname}:no-early-exit',
+            where(lf.f, early[0][0] if early else None),
+            'loops over files and entries have no break/return; a continue is only the name filter of the files or the window/outcome filter of the entries as a guard clause',
+            'a loop of _load is left early: files or entries of the day are skipped (not understood)'
+            + (f': `{type(early[0][0]).__name__.lower()}` - {early[0][1]}' if early else ''),
+            nontrivial=False,
+        )
         # (b) what find binds to the window parameters
         if not ffl.loads:
             raise AnalysisError('chronicle.find no longer calls _load')
@@ -2716,6 +2854,14 @@ _LOOP_RENAMED = """cur = before.date()
 _LOAD_LOOP = "def _load(after: datetime, before: datetime, journal: str, succeeded: bool):\n    entries = []\n    status = 'success' if succeeded else 'failure'\n    for fn in filter(lambda fn: fn.endswith('.json'), os.listdir(journal)):\n        jsonfile = os.path.join(journal, fn)\n        with open(jsonfile, 'rt', encoding='utf-8') as file:\n            for entry in json.load(file):\n                completed = datetime.fromisoformat(entry['timing']['completed'])\n                if after < completed < before and entry['status'] == status:\n                    entries.append(entry)\n"
 
 
+_FILTER_IF = "if after < completed < before and entry['status'] == status:\n                    entries.append(entry)"
+
+
+def _guarded(*lines):
+    """the entry filter of _load as guard clauses: the given lines (12 columns deeper than `def`), then the append"""
+    return ('\n' + ' ' * 16).join(lines + ('entries.append(entry)',))
+
+
 def _load_with_helper(cmp, tail):
     return (
         "def _in_window(entry, after, before, status):\n    completed = datetime.fromisoformat(entry['timing']['completed'])\n    if not @CMP@:\n        return False\n    @TAIL@\n\n\ndef _load(after: datetime, before: datetime, journal: str, succeeded: bool):\n    entries = []\n    status = 'success' if succeeded else 'failure'\n    for fn in os.listdir(journal):\n        if not fn.endswith('.json'):\n            continue\n        jsonfile = os.path.join(journal, fn)\n        with open(jsonfile, 'rt', encoding='utf-8') as file:\n            entries.extend(entry for entry in json.load(file) if _in_window(entry, after, before, status))\n"
@@ -2767,6 +2913,17 @@ VARIANTS = [
     V('entries collected by extend(<generator>) with the inline filter', 'N', _CH, '_load', "            for entry in json.load(file):\n                completed = datetime.fromisoformat(entry['timing']['completed'])\n                if after < completed < before and entry['status'] == status:\n                    entries.append(entry)\n", "            entries.extend(entry for entry in json.load(file) if after < datetime.fromisoformat(entry['timing']['completed']) < before and entry['status'] == status)\n", None),
     V('extend(<generator>) without any filter', 'B', _CH, '_load', "            for entry in json.load(file):\n                completed = datetime.fromisoformat(entry['timing']['completed'])\n                if after < completed < before and entry['status'] == status:\n                    entries.append(entry)\n", "            entries.extend(entry for entry in json.load(file))\n", 'R-C18-4'),
     V('extend(<generator>) filtered by the outcome only', 'B', _CH, '_load', "            for entry in json.load(file):\n                completed = datetime.fromisoformat(entry['timing']['completed'])\n                if after < completed < before and entry['status'] == status:\n                    entries.append(entry)\n", "            entries.extend(entry for entry in json.load(file) if entry['status'] == status)\n", 'R-C18-4'),
+    # the filter as guard clauses: a `continue` taken exactly by the entries the filter rejects is not an early exit
+    V('filter as one guard clause', 'N', _CH, '_load', _FILTER_IF, _guarded("if not (after < completed < before and entry['status'] == status):", '    continue'), None),
+    V('filter as guard clauses, De Morgan, mirrored', 'N', _CH, '_load', _FILTER_IF, _guarded('if completed <= after or not before > completed:', '    continue', "if status != entry['status']:", '    continue'), None),
+    V('outcome guard before the time is parsed', 'N', _CH, '_load', "completed = datetime.fromisoformat(entry['timing']['completed'])\n                " + _FILTER_IF, _guarded("if not entry['status'] == status:", '    continue', "completed = datetime.fromisoformat(entry['timing']['completed'])", 'if not after < completed < before:', '    continue'), None),
+    V('guard clause on a predicate helper with a guard', 'N', _CH, None, _LOAD_LOOP, _load_with_helper('after < completed < before', "return entry['status'] == status").replace('entries.extend(entry for entry in json.load(file) if _in_window(entry, after, before, status))', 'for entry in json.load(file):\n                if not _in_window(entry, after, before, status):\n                    continue\n                entries.append(entry)'), None),
+    V('guard clause leaves the entry loop', 'B', _CH, '_load', _FILTER_IF, _guarded("if not (after < completed < before and entry['status'] == status):", '    break'), 'R-C18-4'),
+    V('guard clause also drops the newest hour of the window', 'B', _CH, '_load', _FILTER_IF, _guarded("if not (after < completed < before and entry['status'] == status) or before - completed < timedelta(hours=1):", '    continue'), 'R-C18-4'),
+    V('guard clause on something the filter does not test', 'B', _CH, '_load', _FILTER_IF, _guarded("if entry['task'].startswith('_'):", '    continue', "if not (after < completed < before and entry['status'] == status):", '    continue'), 'R-C18-4'),
+    V('guard clause on the other outcome', 'B', _CH, '_load', _FILTER_IF, _guarded("if entry['status'] == status:", '    continue', "if after < completed < before and entry['status'] == status:", '    entries.append(entry)')[: -len('\n' + ' ' * 16 + 'entries.append(entry)')], 'R-C18-4'),
+    V('guard clause skips more than the collection', 'B', _CH, '_load', _FILTER_IF, _guarded("if not (after < completed < before and entry['status'] == status):", '    continue', "seen.add(entry['runid'])"), 'R-C18-4'),
+    V('predicate helper guard clause with the guard inverted', 'B', _CH, None, _LOAD_LOOP, _load_with_helper('after < completed < before', "return entry['status'] == status").replace('entries.extend(entry for entry in json.load(file) if _in_window(entry, after, before, status))', 'for entry in json.load(file):\n                if _in_window(entry, after, before, status):\n                    continue\n                if _in_window(entry, after, before, status):\n                    entries.append(entry)'), 'R-C18-4'),
     # R-C18-5
     V('after dropped again (fixed)', 'B', _API, 'failed', 'after=after, before=before', 'before=before', 'R-C18-5'),
     V('limit parsed but not passed', 'B', _API, 'succeeded', 'limit=limit, ', '', 'R-C18-5'),
